@@ -388,6 +388,12 @@ Definition h3_body_pinned {St T} (w : wfn St) (dw : wfn T) (st : St * T) (chunks
 Definition h23_resp_header_log (ds : list dumper) (fs : list field) : log :=
   run_hooks ds (field_hooks HRespHeader fs).
 
+(* an h2 response header block that is never completed or is rejected (connection cut between
+   HEADERS and CONTINUATION, malformed field): readMetaFrame has dumped every field the moment
+   hpack decoded it; the closing CRLF is dumped only for a block that was accepted *)
+Definition h2_partial_block_log (ds : list dumper) (fs : list field) : log :=
+  run_hooks ds (map (fun f => HRespHeader (field_line f)) fs).
+
 Definition h23_recv {St} (ds : list dumper) (fs : list field) (r : rfn St) (b0 : St) (sizes : list nat)
   : (St * list (bytes * rstat)) * log :=
   let '(st, reads) := read_all (wrap_reader ds (rlift r)) (b0, h23_resp_header_log ds fs) sizes in
